@@ -22,7 +22,9 @@ import (
 	"hclverif/hv"
 )
 
-func main() { hv.Main(map[string]func(*hv.RunCfg) error{"c09": runC09, "c09table": runC09Table}) }
+func main() {
+	hv.Main(map[string]func(*hv.RunCfg) error{"c09": runC09, "c09table": runC09Table, "c09bytes": runC09Bytes})
+}
 
 func gcount(b []byte) int {
 	n, _ := textseg.TokenCount(b, textseg.ScanGraphemeClusters)
@@ -466,4 +468,74 @@ func allTokenTypeCodes() []int {
 		int(hclsyntax.TokenTabs), int(hclsyntax.TokenInvalid), int(hclsyntax.TokenBadUTF8), int(hclsyntax.TokenQuotedNewline),
 		int(hclsyntax.TokenNil),
 	}
+}
+
+// runC09Bytes: byte-level Coq cases for Write/FormatBytesCheck.v. For sources that parse without
+// errors: the tokens the real scanner produced (before formatting) and the bytes hclwrite.Format
+// returned. Inside Coq the model's write(format ts) must equal those bytes, and the scanner MODEL run
+// on them must give back the formatted tokens (types, bytes, SpacesBefore); fb_covered lists the
+// cases that fall under the proved theorem (no templates), fb_conjecture_violations must stay empty.
+func runC09Bytes(cfg *hv.RunCfg) error {
+	rep := hv.NewReport("C09", cfg.Seed)
+	rep.Rule = "byte-level cases: hand corpus, combined byte-sensitive lines, generated configurations; only sources that parse without errors; distinct by SHA-256 of the source"
+	r := hv.NewRng(cfg.Seed, 909)
+	cf := &hv.CaseFile{Dir: cfg.Out, Name: "c09bytes",
+		Imports: "From Coq Require Import String.\nFrom HclV Require Import Base.Prelude Write.Format Write.FormatCheck Write.FormatBytes Write.FormatBytesCheck.",
+		Ctype:   "list tok * string", Checker: "check_fb_cases",
+		Extras:  [][2]string{{"fb_conjecture_violations", "fb_conjecture_violations"}, {"fb_covered", "fb_covered"}}}
+	var srcs []string
+	if cfg.Replay != "" {
+		b, err := os.ReadFile(cfg.Replay)
+		if err != nil {
+			return err
+		}
+		srcs = []string{string(b)}
+	} else {
+		srcs = append(srcs, c09Corpus...)
+		for i := 0; i < cfg.N/3; i++ {
+			n := 2 + r.Intn(5)
+			var sb strings.Builder
+			for k := 0; k < n; k++ {
+				sb.WriteString(linePool[r.Intn(len(linePool))])
+			}
+			srcs = append(srcs, sb.String())
+		}
+		for i := 0; i < cfg.N; i++ {
+			s, _ := hv.GenConfig(r)
+			srcs = append(srcs, s)
+		}
+	}
+	n := 0
+	for _, s := range srcs {
+		if n >= cfg.N && cfg.Replay == "" {
+			break
+		}
+		src := []byte(s)
+		if bytes.HasPrefix(src, []byte("\xef\xbb\xbf")) {
+			continue // lex_main models BOM-free input
+		}
+		if _, d := hclsyntax.ParseConfig(src, "t.hcl", hcl.InitialPos); d.HasErrors() {
+			rep.Hist("input:has-parse-errors(skipped)")
+			continue
+		}
+		toks := hclwrite.VerifLexConfig(src)
+		items := make([]string, len(toks))
+		for i, t := range toks {
+			items[i] = coqTok(t)
+		}
+		out := hclwrite.Format(append([]byte(nil), src...))
+		cf.Add(fmt.Sprintf("(%s, %s)", hv.CoqList(items), hv.Hexs(out)))
+		rep.Idx(s)
+		rep.Count(s, len(toks) >= 4)
+		rep.Hist("input:valid")
+		n++
+	}
+	names, err := cf.Flush(60)
+	if err != nil {
+		return err
+	}
+	rep.CaseFiles = names
+	b2 := filepath.Join(cfg.Out, "bytes")
+	os.MkdirAll(b2, 0o755)
+	return rep.Write(b2)
 }
